@@ -42,6 +42,14 @@ fn one_of(out: &mut Out, syms: &[&'static str], bonds: &[(usize, usize, f64)], c
     // (a chain, a star or the previous case's graph): the lists must be this graph's, nothing left over
     if *count % 3 == 0 && n >= 2 {
         let mut w = Wrapper::from_atomic_symbols(syms);
+        // the molecule may already hold coordinates when the table arrives (read from a file, set by a script): exactly on a line, on
+        // a planar zig-zag, or nowhere in particular — the lists are the table's whatever the geometry
+        match *count % 12 {
+            3 => { let _ = crate::s_matrix::panic_kind(|| w.set_coordinates((0..n).flat_map(|i| [1.2 * i as f64, 0.0, 0.0]).collect())); }
+            6 => { let _ = crate::s_matrix::panic_kind(|| w.set_coordinates((0..n).flat_map(|i| [1.2 * i as f64, if i % 2 == 0 { 0.0 } else { 0.7 }, 0.0]).collect())); }
+            9 => { let _ = crate::s_matrix::panic_kind(|| w.set_coordinates((0..n).flat_map(|i| [((i * 37 + 11) % 17) as f64 * 0.61, ((i * 23 + 5) % 13) as f64 * 0.83, ((i * 7 + 3) % 11) as f64 * 0.97]).collect())); }
+            _ => {}
+        }
         let mut prev = vec![0.0; n * n];
         match *count % 9 { 0 => { for i in 0..(n - 1) { prev[i * n + i + 1] = 1.0; } }
                            3 => { for j in 1..n { prev[j] = 2.0; } }
@@ -108,6 +116,15 @@ pub fn run(out: &mut Out, seed: u64, tier: &str) {
         // occasionally offer a duplicate in the other direction: the set must keep one
         if !bonds.is_empty() && rng.chance(0.3) { let b = bonds[0]; bonds.push((b.1, b.0, b.2)); }
         one(out, n, &bonds, &mut count, &mut nontrivial);
+    }
+    // centres of very high degree (a bond table may give an atom any number of neighbours: an endohedral atom bonded to every cage
+    // atom, a bad table): stars of 15-65 leaves, alone and with a tail
+    for deg in [15usize, 16, 17, 18, 20, 31, 32, 33, 64, 65] {
+        if tier != "thorough" && deg > 33 { continue; }
+        let star: Vec<(usize, usize, f64)> = (1..=deg).map(|j| (0, j, 1.0)).collect();
+        one(out, deg + 1, &star, &mut count, &mut nontrivial);
+        let mut tailed: Vec<(usize, usize, f64)> = (1..=deg).map(|j| (j, 0, 1.0)).collect(); tailed.push((deg, deg + 1, 2.0)); tailed.push((deg + 1, deg + 2, 1.0));
+        one(out, deg + 3, &tailed, &mut count, &mut nontrivial);
     }
     // bridged and multicentre motifs with the elements that occur in them: an atom of one element between two of another (the
     // three-atom path X-Y-X: bifluoride, a hydride or halide bridge, a bridging carbonyl carbon), and the four-ring X-Y-X-Y with two
